@@ -10,6 +10,7 @@ theorem verdict : (classify Generated.factsC15).Sound (Holds (cfgOf Generated.fa
 #eval IO.println (verdictLine "C15" (classify Generated.factsC15))
 #print axioms verdict
 #print axioms holds_noReset
+#print axioms classify_sound
 #print axioms refutes_reset
 #print axioms refutes_reset_stale
 #print axioms witness_two_holders
